@@ -27,14 +27,18 @@ Verdict(r) ==
       plainDirs == UNION { { rt } \cup { d \in NodeIds(w) : Below(w, rt, d) /\ w.nodes[d].kind = "dir" } : rt \in roots \ fol }
       must == UNION { Listed(w, rt, 0, 0) : rt \in roots }
               \cup UNION { ChildrenOf(w, d) : d \in ClosureAvoid(w, fol, plainDirs) \ plainDirs }
-      want == IF fol = roots THEN UNION { Behind(w, rt) : rt \in roots } ELSE must
-      may  == UNION { Behind(w, rt) : rt \in roots }
-      plain == UNION { Listed(w, rt, 0, 0) : rt \in roots }
+      cut == r.min > 1 \/ r.max > 0                                    \* a depth window that cuts (one root, with the option)
+      rt1 == r.roots[1]
+      want == IF cut THEN { n \in Behind(w, rt1) : DueInWindow(w, rt1, n, r.min, r.max, 8) }
+              ELSE IF fol = roots THEN UNION { Behind(w, rt) : rt \in roots } ELSE must
+      may  == IF cut THEN { n \in Behind(w, rt1) : AdmissibleInWindow(w, rt1, n, r.min, r.max, 8) }
+              ELSE UNION { Behind(w, rt) : rt \in roots }
+      plain == UNION { Listed(w, rt, r.min, r.max) : rt \in roots }
       got == { fids[i] : i \in 1 .. Len(fids) }
       y == IF f.timed_out THEN "hang"
            ELSE IF f.panic THEN "crash"
            ELSE IF want \ got # {} THEN "missing-entry-behind-link"
-           ELSE IF got \ (IF fol = roots THEN want ELSE may) # {} THEN (IF 0 \in got THEN "row-from-outside-the-world" ELSE "extra-row")
+           ELSE IF got \ (IF fol = roots /\ ~cut THEN want ELSE may) # {} THEN (IF 0 \in got THEN "row-from-outside-the-world" ELSE "extra-row")
            ELSE IF Cardinality(got) # Len(fids) THEN "entry-listed-twice"
            ELSE IF f.status # 0 THEN "status-" \o ToString(f.status)
            ELSE IF pids # plain \/ Len(p.rows) # Cardinality(pids) THEN "without-option-wrong-rows"
